@@ -18,7 +18,7 @@ open Proto Rng
       labels <start> <file> <cur> <pos> <n> <ncpu> <tables>  -> seed labels of the rows an extension appends
       timehist <edges> <seed:pos,…> <step/step/…> <tables>   step = d,<svc>,<tmin|n>,<tmax|n>,<size> | s,<edges ;-sep> | o,<svc>,<k> | r,<svc>,<seed>
           -> times:<floats|ERR>/… svcs:<seed:pos>,…
-      extfile <start> <n> <ncpu> <seed> <pos> <file> <grid1> <grid2> <maxEv> <thr> <maxRep> <npar> <lo> <hi> <tables>
+      extfile <start> <n> <ncpu> <seed> <pos> <mseed:mpos|-> <file> <grid1> <grid2> <maxEv> <thr> <maxRep> <npar> <lo> <hi> <tables>
           grid = s:<m> | r2:<a>,<b> | r3:<a>,<b>,<step> | a:<list>
           -> rows:<…> file:<labels of the new file> rss:<seed>:<pos>  |  ERR:<index|value|runtime> rss:<…>
       trials <n> <ncpu> <seed> <pos> <mseed:mpos|-|same> <maxEv> <nSig> <thr> <maxRep> <npar> <lo> <hi> <tables>
@@ -181,10 +181,10 @@ def answer (line : String) : String :=
         else match pStream m with
           | some st => ((fun r => if r == 1 then st else ⟨pN seed, pN pos⟩), some 1)
           | none => ((fun _ => ⟨pN seed, pN pos⟩), none)
-      match doTrials gen id cfg (pN n) (pN ncpu) w 0 ms with
-      | .error .valueError => "ERR:value"
-      | .error .indexError => "ERR:index"
-      | .ok r =>
+      match doTrialsPost gen id cfg (pN n) (pN ncpu) w 0 ms with
+      | (.error .valueError, w') => s!"ERR:value rss:{fStream (w' 0)}"
+      | (.error .indexError, w') => s!"ERR:index rss:{fStream (w' 0)}"
+      | (.ok r, _) =>
         let mstr := match ms with
           | some 1 => fStream (r.world 1)
           | _ => "-"
@@ -220,24 +220,26 @@ def answer (line : String) : String :=
       | .error _ => "ERR:value"
   | ["labels", st, file, cur, pos, n, ncpu, tabs] =>
       fListD toString (extendLabels (genOf (parseTables tabs)) id (pN st) (pList pN file) (pN cur) (pN pos) (pN n) (pN ncpu))
-  | ["extfile", st, n, ncpu, seed, pos, file, g1, g2, maxEv, thr, maxRep, npar, lo, hi, tabs] =>
+  | ["extfile", st, n, ncpu, seed, pos, m, file, g1, g2, maxEv, thr, maxRep, npar, lo, hi, tabs] =>
       -- extend_trial_data_file(ana, rss, n, trial_data, mean_n_sig=g1, mean_n_sig_null=g2, ncpu) on the synthetic analysis
       let clen := fun (x : Float) => if x ≤ 0 then 0 else x.ceil.toUInt64.toNat
       let grid := (gridOf Nat.toFloat clen (pGrid g1)).flatMap (fun m =>
         (gridOf Nat.toFloat clen (pGrid g2)).map (fun m0 => (m, m0)))
       let cfgOf := fun (g : Float × Float) =>
         synCfg ⟨pN maxEv, g.1.floor.toUInt64.toNat, pF thr, pN maxRep, pN npar, pF lo, pF hi⟩
-      let w : World := fun _ => ⟨pN seed, pN pos⟩
-      match extendFile (genOf (parseTables tabs)) id cfgOf (pN st) (pN n) (pN ncpu) 0 none grid (pList pN file) w with
+      let (w, ms) : World × Option Nat := match pStream m with
+        | some stm => ((fun r => if r == 1 then stm else ⟨pN seed, pN pos⟩), some 1)
+        | none => ((fun _ => ⟨pN seed, pN pos⟩), none)
+      match extendFile (genOf (parseTables tabs)) id cfgOf (pN st) (pN n) (pN ncpu) 0 ms grid (pList pN file) w with
       | (.error e, w') =>
         let c := match e with
           | .indexError => "index"
           | .valueError => "value"
           | .runtimeError => "runtime"
-        s!"ERR:{c} rss:{fStream (w' 0)}"
+        s!"ERR:{c} rss:{fStream (w' 0)} m:{fStream (w' 1)}"
       | (.ok (file', rows), w') =>
         let rs := if rows.isEmpty then "-" else String.intercalate "|" (rows.map fRow)
-        s!"rows:{rs} file:{fListD toString file'} rss:{fStream (w' 0)}"
+        s!"rows:{rs} file:{fListD toString file'} rss:{fStream (w' 0)} m:{fStream (w' 1)}"
   | ["timehist", ivs, svcs, steps, tabs] =>
       -- a history on ONE Livetime/TimeGenerator object and several services (refs 0..): executed with `trun`
       let gen := genOf (parseTables tabs)
